@@ -244,6 +244,13 @@ type GW struct {
 	evDone   chan struct{}
 	stopTail chan struct{}
 	killed   bool
+
+	Diag string
+
+	faultMu       sync.Mutex
+	faultOff      int64
+	faults        []string
+	firstFaultOff int64
 }
 
 type GWEvent struct {
@@ -277,7 +284,7 @@ func (l *Lab) startGatewayOnce(cfg *GWConfig) (*GW, error, bool) {
 	port := FreePort()
 	g := &GW{Lab: l, Cfg: cfg, Dir: dir, Port: port, Addr: fmt.Sprintf("127.0.0.1:%d", port),
 		LogPath: filepath.Join(dir, "log"), EvPath: filepath.Join(dir, "events.jsonl"),
-		exited: make(chan struct{}), evDone: make(chan struct{}), stopTail: make(chan struct{})}
+		exited: make(chan struct{}), evDone: make(chan struct{}), stopTail: make(chan struct{}), firstFaultOff: -1}
 	g.cond = sync.NewCond(&g.mu)
 	g.DbgAddr = fmt.Sprintf("127.0.0.1:%d", FreePort())
 	os.MkdirAll(filepath.Join(dir, "tmp"), 0700)
@@ -346,7 +353,13 @@ func (l *Lab) startGatewayOnce(cfg *GWConfig) (*GW, error, bool) {
 		c, err := net.DialTimeout("tcp", g.Addr, 200*time.Millisecond)
 		if err == nil {
 			c.Close()
-			// the listener must belong to this process: it is still running
+			// the listener must belong to this process group: another process of the sandbox
+			// may have been given the port of a gateway that never listened
+			if !listenerOwnedBy(cmd.Process.Pid, port) {
+				time.Sleep(2 * time.Millisecond)
+				continue
+			}
+			// ... and it is still running
 			select {
 			case <-g.exited:
 				continue
@@ -530,9 +543,32 @@ func (g *GW) LogTail(n int) string {
 
 var faultRe = regexp.MustCompile(`(?m)^(panic: .*|fatal error: .*|.*http: panic serving.*|.*runtime error: .*|.*\[recovered\].*|unexpected fault address.*|SIG[A-Z]+: .*)$`)
 
-// Faults scans the process log for runtime fault signatures.
+// Faults scans the process log for runtime fault signatures. The scan is
+// incremental (the log of a long hostile run grows to hundreds of megabytes).
 func (g *GW) Faults() []string {
-	return ScanFaults(g.LogText())
+	g.faultMu.Lock()
+	defer g.faultMu.Unlock()
+	f, err := os.Open(g.LogPath)
+	if err != nil {
+		return append([]string(nil), g.faults...)
+	}
+	defer f.Close()
+	if _, err := f.Seek(g.faultOff, 0); err != nil {
+		return append([]string(nil), g.faults...)
+	}
+	b, _ := io.ReadAll(f)
+	// only whole lines are scanned; a partial last line is left for the next call
+	if i := bytes.LastIndexByte(b, '\n'); i >= 0 {
+		chunk := b[:i+1]
+		g.faultOff += int64(len(chunk))
+		for _, x := range ScanFaults(string(chunk)) {
+			g.faults = append(g.faults, x)
+			if g.firstFaultOff < 0 {
+				g.firstFaultOff = g.faultOff - int64(len(chunk))
+			}
+		}
+	}
+	return append([]string(nil), g.faults...)
 }
 
 func ScanFaults(s string) []string {
@@ -547,9 +583,24 @@ func ScanFaults(s string) []string {
 	return out
 }
 
-// PanicContext returns the log around the first fault (for replay files).
+// FaultContext returns the log from the first fault on (for replay files).
 func (g *GW) FaultContext(max int) string {
-	s := g.LogText()
+	g.Faults()
+	g.faultMu.Lock()
+	off := g.firstFaultOff
+	g.faultMu.Unlock()
+	if off < 0 {
+		return ""
+	}
+	f, err := os.Open(g.LogPath)
+	if err != nil {
+		return ""
+	}
+	defer f.Close()
+	f.Seek(off, 0)
+	b := make([]byte, 256*1024)
+	n, _ := io.ReadFull(f, b)
+	s := string(b[:n])
 	loc := faultRe.FindStringIndex(s)
 	if loc == nil {
 		return ""
@@ -767,4 +818,59 @@ func tmpDirOf(cfg *GWConfig, dir string) string {
 		return cfg.TmpDir
 	}
 	return filepath.Join(dir, "tmp")
+}
+
+// listenerOwnedBy reports whether a socket listening on the TCP port belongs to
+// a process of the process group pgid (the gateway, or strace and the gateway).
+func listenerOwnedBy(pgid int, port int) bool {
+	inodes := map[string]bool{}
+	for _, f := range []string{"/proc/net/tcp", "/proc/net/tcp6"} {
+		b, err := os.ReadFile(f)
+		if err != nil {
+			continue
+		}
+		for _, ln := range strings.Split(string(b), "\n")[1:] {
+			fl := strings.Fields(ln)
+			if len(fl) < 10 || fl[3] != "0A" {
+				continue
+			}
+			i := strings.LastIndex(fl[1], ":")
+			if i < 0 {
+				continue
+			}
+			var p int
+			fmt.Sscanf(fl[1][i+1:], "%X", &p)
+			if p == port {
+				inodes[fl[9]] = true
+			}
+		}
+	}
+	if len(inodes) == 0 {
+		return false
+	}
+	procs, _ := filepath.Glob("/proc/[0-9]*")
+	for _, pd := range procs {
+		st, err := os.ReadFile(filepath.Join(pd, "stat"))
+		if err != nil {
+			continue
+		}
+		// pid (comm) state ppid pgrp ...
+		j := strings.LastIndex(string(st), ")")
+		if j < 0 {
+			continue
+		}
+		fl := strings.Fields(string(st)[j+1:])
+		if len(fl) < 3 || fl[2] != fmt.Sprint(pgid) {
+			continue
+		}
+		fds, _ := os.ReadDir(filepath.Join(pd, "fd"))
+		for _, fd := range fds {
+			if t, err := os.Readlink(filepath.Join(pd, "fd", fd.Name())); err == nil && strings.HasPrefix(t, "socket:[") {
+				if inodes[strings.TrimSuffix(strings.TrimPrefix(t, "socket:["), "]")] {
+					return true
+				}
+			}
+		}
+	}
+	return false
 }
